@@ -7,14 +7,21 @@ import (
 	"github.com/teleport-network/teleport/x/xibc/exported"
 )
 
-// ExportMetadata exports all the processed times in the client store so they can be included in clients genesis
-// and imported by a ClientKeeper
+// ExportMetadata exports all the processed times and iteration keys in the client store so they can be included
+// in clients genesis and imported by a ClientKeeper
 func (cs ClientState) ExportMetadata(store sdk.KVStore) []exported.GenesisMetadata {
 	gm := make([]exported.GenesisMetadata, 0)
 	IterateProcessedTime(store, func(key, val []byte) bool {
 		gm = append(gm, clienttypes.NewGenesisMetadata(key, val))
 		return false
 	})
+	// the iteration keys are what IterateConsensusStateAscending (pruning of expired consensus states)
+	// walks: without them an imported client never prunes
+	iterator := sdk.KVStorePrefixIterator(store, []byte(KeyIterateConsensusStatePrefix))
+	defer iterator.Close()
+	for ; iterator.Valid(); iterator.Next() {
+		gm = append(gm, clienttypes.NewGenesisMetadata(iterator.Key(), iterator.Value()))
+	}
 	if len(gm) == 0 {
 		return nil
 	}
